@@ -50,6 +50,9 @@ PART_MESHES = {
     "hexa8_square": dict(kind="poly", et="HEXA8", poly="square", h=0.5, dim=3, layers=2, ne=12, quick=True),
     "prism6_quad": dict(kind="poly", et="PRISM6", poly="quad", h=0.5, dim=3, layers=1, ne=14, quick=True),
     "mixed3d": dict(kind="mixed", dim=3, h=0.5, order=1, ne=18, quick=True),
+    # the documented unit-conversion factor of the mesh getters (coordinates x coef), for the whole mesh and for its parts alike
+    "tri3_quad_coef": dict(kind="poly", et="TRI3", poly="quad", h=0.5, dim=2, ne=14, quick=True, coef=2.5),
+    "hexa8_square_coef": dict(kind="poly", et="HEXA8", poly="square", h=0.5, dim=3, layers=2, ne=12, quick=True, coef=0.01),
     # thorough only
     "tri3_L": dict(kind="poly", et="TRI3", poly="L", h=0.5, dim=2, ne=20, quick=False),
     "quad4_L": dict(kind="poly", et="QUAD4", poly="L", h=0.5, dim=2, ne=15, quick=False),
@@ -179,6 +182,8 @@ def _partition(name, nproc):
                 et = ElemType.TRI3 if spec["order"] == 1 else ElemType.TRI6
         mesher._Set_PhysicalGroups()
         mesher._Mesh_Generate(dim, et)
+        if "coef" in spec:
+            return mesher._Mesh_Get_Meshes(nproc, spec["coef"])
         return mesher._Mesh_Get_Meshes(nproc)
     finally:
         if gmsh.isInitialized():
